@@ -305,4 +305,9 @@ qb_log_thread_stop(void)
 	(void)qb_thread_lock_destroy(logt_wthread_lock);
 	sem_destroy(&logt_print_finished);
 	sem_destroy(&logt_thread_start);
+
+	/* allow a later qb_log_init() + qb_log_thread_start() cycle */
+	logt_wthread_lock = NULL;
+	wthread_active = QB_FALSE;
+	wthread_should_exit = QB_FALSE;
 }
